@@ -150,10 +150,22 @@ def match_len_gt(node):
     return None
 
 
-def match_rule(test, text):
-    """One `if` test of a validate() body -> rule dict (or unrecognised)."""
+def conjuncts(test):
+    return list(test.values) if isinstance(test, ast.BoolOp) and isinstance(test.op, ast.And) else [test]
+
+
+def match_rule(test, text, guards=()):
+    """One `if` test of a validate() body -> rule dict (or unrecognised). `guards` are the tests of the
+    enclosing `if X is not None:` blocks (pure, so `if G: if A: raise` means `if G and A: raise`)."""
     unrec = {'kind': 'unrecognised', 'src': ' '.join(seg(text, test).split())}
-    conj = test.values if isinstance(test, ast.BoolOp) and isinstance(test.op, ast.And) else [test]
+    conj = list(guards) + conjuncts(test)
+    # a repeated guard (`X is not None` outside and inside) is one guard
+    seen = []
+    for c in conj:
+        if match_is_not_none(c) and any(match_is_not_none(d) == match_is_not_none(c) for d in seen):
+            continue
+        seen.append(c)
+    conj = seen
     if len(conj) == 1:
         c = conj[0]
         # self.X != 'c'   (Basic.Properties.cluster_id)
@@ -231,19 +243,28 @@ def rules_of(func, text):
     if body and isinstance(body[0], ast.Expr) and isinstance(body[0].value, ast.Constant) \
             and isinstance(body[0].value.value, str):
         body = body[1:]
-    for st in body:
-        if isinstance(st, ast.Pass):
-            continue
-        ok = (isinstance(st, ast.If) and not st.orelse and len(st.body) == 1
-              and isinstance(st.body[0], ast.Raise) and st.body[0].exc is not None)
-        if ok:
-            exc = st.body[0].exc
-            name = exc.func if isinstance(exc, ast.Call) else exc
-            ok = isinstance(name, ast.Name) and name.id == 'ValueError'
-        if not ok:
+
+    def walk(stmts, guards):
+        for st in stmts:
+            if isinstance(st, ast.Pass):
+                continue
+            ok = (isinstance(st, ast.If) and not st.orelse and len(st.body) == 1
+                  and isinstance(st.body[0], ast.Raise) and st.body[0].exc is not None)
+            if ok:
+                exc = st.body[0].exc
+                name = exc.func if isinstance(exc, ast.Call) else exc
+                ok = isinstance(name, ast.Name) and name.id == 'ValueError'
+            if ok:
+                rules.append(match_rule(st.test, text, guards))
+                continue
+            # `if X is not None [and Y is not None]:` around further checks: the guard distributes
+            if (isinstance(st, ast.If) and not st.orelse and st.body
+                    and all(match_is_not_none(c) for c in conjuncts(st.test))
+                    and all(isinstance(b, (ast.If, ast.Pass)) for b in st.body)):
+                walk(st.body, tuple(guards) + tuple(conjuncts(st.test)))
+                continue
             rules.append({'kind': 'unrecognised', 'src': ' '.join(seg(text, st).split())[:200]})
-            continue
-        rules.append(match_rule(st.test, text))
+    walk(body, ())
     return rules
 
 
